@@ -84,6 +84,10 @@ def program(draw, emphasis='c01'):
         plans.append({'dur': draw(st.sampled_from(DURS)),
                       'outcome': draw(st.sampled_from(['ret'] * 4 + ['raise'] * fail_p + ['raise_sync'] * sync_p + ['raise_base'] * min(fail_p, 1)))})
     for p_ in plans:
+        if p_['outcome'] == 'ret' and draw(st.integers(0, 5)) == 0:
+            p_['outcome'] = 'ret_none'            # a computation whose result is None
+        if draw(st.integers(0, 5)) == 0:
+            p_['cleanup'] = draw(st.sampled_from([U, 0.25, 0.5]))     # takes this long to honour a cancellation
         if p_['outcome'] != 'raise_sync' and draw(st.integers(0, 7)) == 0:
             # re-entrant use: the computation itself asks the cached function for its own key, with a timeout
             p_['nested'] = draw(st.sampled_from([0, U, 0.25]))
@@ -106,10 +110,10 @@ def program(draw, emphasis='c01'):
                             'cancel': cancel, 'timeout': timeout})
         callers.sort(key=lambda c: c['at'])
         if i == 0:
-            mode = draw(st.sampled_from(['leave', 'leave', 'await', 'stop']))
+            mode = draw(st.sampled_from(['leave', 'leave', 'await', 'stop', 'cancel-all']))
             end_at = L
         else:
-            mode = draw(st.sampled_from(['await', 'await', 'await', 'leave', 'stop']))
+            mode = draw(st.sampled_from(['await', 'await', 'await', 'leave', 'stop', 'cancel-all']))
             end_at = when()
         runner = draw(st.sampled_from(['run', 'run', 'run', 'manual'] if emphasis == 'c01'
                                       else ['run', 'run', 'run', 'manual', 'resume']))
@@ -205,10 +209,12 @@ def valid(case):
         for p in case['plans']:
             if p.get('nested') is not None and not (0 <= p['nested'] <= 1):
                 return False
-            if p['outcome'] not in ('ret', 'raise', 'raise_sync', 'raise_base') or not (-1 <= p['dur'] <= 2 or p['dur'] == LONG):
+            if not (0 <= p.get('cleanup', 0) <= 2):
+                return False
+            if p['outcome'] not in ('ret', 'ret_none', 'raise', 'raise_sync', 'raise_base') or not (-1 <= p['dur'] <= 2 or p['dur'] == LONG):
                 return False
         for t in case['threads']:
-            if t['runner'] not in ('run', 'manual', 'resume') or t['end']['mode'] not in ('await', 'leave', 'stop'):
+            if t['runner'] not in ('run', 'manual', 'resume') or t['end']['mode'] not in ('await', 'leave', 'stop', 'cancel-all'):
                 return False
             if t.get('pause', 0) < 0:
                 return False
